@@ -33,7 +33,7 @@ def run(tier, vd):
     r4 = validate_traces("FragTrace", ff, parallel=8)
     vd.add_validation(r4)
     r4b = dict(r4)
-    r4b["viol"] = [v for v in r4["viol"] if v["rule"] in ("F1", "PANIC") or (v["rule"] == "F2" and "unparsed" in v["p"])]
+    r4b["viol"] = [v for v in r4["viol"] if v["rule"] in ("F1", "K2", "PANIC") or (v["rule"] == "F2" and "unparsed" in v["p"])]
     report_viols(vd, "C10", r4b, {"world": "frag", "seed": sd}, lambda v: {"rule": v["rule"], "world": "frag"}, lambda v: "frag %s %s" % (v["rule"], v["p"]))
     vd.cov["samples"].append({"kind": "ingress row with reply frames (source ownership, well-formedness flags from the independent parser)", "events": [e for e in read_ndjson(itf) if e.get("ev") == "row" and e.get("out")][:3]})
 
